@@ -23,6 +23,8 @@ THEOREMS = [
     "Verif.C05.crop_absent_iff_empty",
     "Verif.C05.crop_crop",
     "Verif.C05.keepMeta_spec",
+    "Verif.C05.pixels_split",
+    "Verif.C05.cropped_kymo_lines",
     "Verif.C01.cont_slice_samples",
     "Verif.C01.slice_samples",
 ]
